@@ -48,6 +48,10 @@ pub trait Suite: RandomizedCiphersuite {
     fn tweak_kp(_kp: frost::keys::KeyPackage<Self>, _root: Option<&[u8]>) -> frost::keys::KeyPackage<Self> {
         panic!("tweak on a non-Taproot suite")
     }
+    /// The public key package as the library normalises it before computing binding factors (Taproot: even Y).
+    fn normalised_pk(pk: frost::keys::PublicKeyPackage<Self>) -> frost::keys::PublicKeyPackage<Self> {
+        pk
+    }
 }
 
 impl Suite for frost_ristretto255::Ristretto255Sha512 {
@@ -113,6 +117,10 @@ impl Suite for frost_secp256k1_tr::Secp256K1Sha256TR {
     fn tweak_kp(kp: frost::keys::KeyPackage<Self>, root: Option<&[u8]>) -> frost::keys::KeyPackage<Self> {
         use frost_secp256k1_tr::keys::Tweak;
         kp.tweak(root)
+    }
+    fn normalised_pk(pk: frost::keys::PublicKeyPackage<Self>) -> frost::keys::PublicKeyPackage<Self> {
+        use frost_secp256k1_tr::keys::EvenY;
+        pk.into_even_y(None)
     }
 }
 impl Suite for frost_p256::P256Sha256 {
